@@ -411,7 +411,7 @@ fn run_group(c: &mut Ctx, m: &'static Merchant, name: &str, nchan: usize, rounds
 }
 
 pub fn run(c: &mut Ctx) {
-    c.note("rule", json!("groups of 2-4 channels interleaved under one merchant; payments of either sign and zero; refused replies; closes from every stage that offers close(); the complete message log (both directions) plus the public parameters is checked offline in order. Distinct = distinct customer-to-merchant messages checked, each against a non-empty set of earlier atoms."));
+    c.note("rule", json!("groups of 2-4 channels interleaved under one merchant; payments of either sign and zero; refused replies; closes from every stage that offers close(); the complete message log (both directions) plus the public parameters is checked offline in order. Distinct = distinct customer-to-merchant messages checked, each against a non-empty set of earlier atoms. Added later: an entropy-failure pass, hostile range parameters (crafted elements, digit signatures made of small-order points) with sessions judged even when cut short."));
     let m = match fixtures::merchant(c.seed, "m0") {
         Ok(m) => m,
         Err(e) => return c.inconclusive(&e),
